@@ -36,10 +36,10 @@ Additional grammar (on top of T9):
                Values: labels, GateStates, ints (Z; a len(...) stored into such a dict is converted).
   local sets   set(), {e for x in xs if c}, s.add(x), x in s, len(set(xs)), list(s).  A set is represented by the
                list of its elements in order of first insertion.  Python's iteration order of a set of strings is
-               not defined (hash order); following the hand model, `list(s)` is the CANONICAL list
-               `canonical_block_gates self s`: the elements of s in the order of the gate map of self (elements
-               that are not gates of self would be dropped: the equality proofs of the covered methods show that
-               there are none, Proofs/CircuitAlgosGen*.v *_set_elements_are_gates).
+               not defined (hash order); following the hand model, `list(s)` is `set_to_list self s`: the elements
+               of s that are gates of self in the order of the gate map of self (canonical_block_gates), followed
+               by the elements that are not gates of self (in the covered methods there are none: this is part of
+               what the equality proofs show).
   expressions  string literals, a + b on strings and on lists, `x if p is None else p`, conditional expressions of
                list type, `not <list>`, comprehensions whose element (or whose single filter) can raise
                (-> mapM / filterM, evaluation order kept), tuple / list of such generators, l[i] on a list of
@@ -94,8 +94,8 @@ HEADER = '''(* GENERATED by translator/t10_circuit_algos.py from cirbo/core/circ
      consumer starts;
    - a second circuit argument (`other`, `subcircuit`) is a different object from self;
    - a Python set is the list of its elements in order of first insertion; `list(s)` / iteration over a set is
-     `set_to_list self s` = the elements of s in the order of the gate map of self (hand-model convention;
-     Python's order is the hash order of the strings). *)
+     `set_to_list self s` = the elements of s that are gates of self, in the order of the gate map of self,
+     followed by the others (hand-model convention; Python's order is the hash order of the strings). *)
 Require Import Cirbo.Model.Base Cirbo.Model.Gate Cirbo.Model.Circuit Cirbo.Model.Traverse Cirbo.Model.Eval.
 Require Import Cirbo.Generated.Operators Cirbo.Generated.GateTypes Cirbo.Generated.CircuitCore.
 
@@ -110,7 +110,7 @@ Definition set_add (s : list label) (x : label) : list label :=                 
   if memb x s then s else s ++ [x].
 Definition set_of_list (l : list label) : list label := fold_left set_add l [].  (* set(l), {x for x in l} *)
 Definition set_to_list (c : circuit) (s : list label) : list label :=            (* list(s): canonical order *)
-  canonical_block_gates c s.
+  canonical_block_gates c s ++ filter (fun x => negb (has_gate c x)) s.
 Fixpoint filterM {A} (f : A -> res bool) (l : list A) : res (list A) :=          (* [x for x in l if f x] *)
   match l with
   | [] => Ok []
